@@ -20,7 +20,7 @@ deviation is attributed to the finding only if the observed contents equal the l
 the search does not expand below such a state."""
 import numpy as np
 from mc import dsl
-from mc.canon import canon_shape, _buf, _arr
+from mc.canon import canon_shape, _buf, _arr, extra_attrs, RAGGED_KNOWN
 from mc.norm import observe, attempt, is_refused
 from mc.refmodel import ragged as M
 from mc.checks.c06 import fresh
@@ -36,7 +36,7 @@ ASSUMPTIONS = ["reference model: reads are no-ops, selections are snapshots, a[.
                "known finding 'lazy-view-write-through' is classified by an explicit buffer-sharing model; only deviations equal to that model are attributed to it"]
 REQUIRED_FEATURES = ["pending_selection", "write_after_read", "alias_derivation",
                      "three_variables", "selection_of_selection", "write_through_alias", "write_through_read_result"]
-BOUNDS = {"quick": "2 base arrays, 3 variables, every history of depth <= 4 over 9 selectors x 6 writes x 21 reads (all variables / sources), "
+BOUNDS = {"quick": "2 base arrays, 3 variables, every history of depth <= 4 over 9 selectors x 6 writes x 22 reads (all variables / sources), "
                    "plus depth 5 for histories on the first base whose first two steps are derivations",
           "thorough": "3 base arrays, depth <= 5 complete, depth 6 after two derivations"}
 
@@ -55,7 +55,7 @@ WRITES = ["row0", "col0", "fill", "cell", "rows1", "from"]
 # read name -> touches (materialises a pending variable)?
 READS = {"meta": False, "repr": True, "tolist": True, "ravel": True, "x[0]": True, "x[1:]": False, "x[:,::-1]": False,
          "x[0,0]": True, "x+1": True, "sum-1": True, "sum0": True, "concat": True, "x[...]": True, "x+y": True,
-         "x[:,::2]": False, "x[mask]": True, "rslice": True, "col_counts": False, "x*fcol": True, "argmax": True, "x[ri,ci]": True}
+         "x[:,::2]": False, "x[mask]": True, "rslice": True, "col_counts": False, "x*fcol": True, "argmax": True, "x[ri,ci]": True, "colvals": False}
 # writes THROUGH the ndarray a read returned (r = x[0]; r[...] = -4).  Whether such a result is a view or a copy is the library's
 # choice, so these steps have no model; they are judged by the read-commutation oracle alone and not expanded further.
 VIA = ["x[0]", "x[-1]", "x[-1,0:2]", "x[0,::2]", "ravel", "x[:,0]", "sum-1"]
@@ -252,7 +252,7 @@ def enabled(snap):
                 continue
             if r == "x[0,0]" and (n < 1 or not rows[0]):
                 continue
-            if r in ("sum0", "col_counts") and not any(rows):
+            if r in ("sum0", "col_counts", "colvals") and not any(rows):
                 continue
             if r == "argmax" and (n < 1 or not all(rows)):
                 continue
@@ -349,6 +349,8 @@ def do_read(x, r, y=None):
         return ragged_slice(x, np.minimum(1, np.asarray(x.lengths)))
     if r == "col_counts":
         return x.col_counts()
+    if r == "colvals":
+        return x.get_column_values(0)
     if r == "x*fcol":
         from mc.checks.c06 import _fcol
         return x * _fcol(x)          # only an exact, row-independent broadcast survives inf / 1e17 / decimals
@@ -417,7 +419,8 @@ def state_key(objs, snap):
             d = np.asarray(d)
             share = tuple((bool(np.shares_memory(d, np.asarray(_buf(objs[y])))), getattr(objs[y], "_shape", None) is sh, objs[y] is o)
                           for y in live if y != x)
-            parts.append((x, canon_shape(sh), _arr(d), d.strides, bool(getattr(o, "is_contigous", True)), bool(getattr(o, "_safe_mode", True)), share))
+            parts.append((x, canon_shape(sh), _arr(d), d.strides, bool(getattr(o, "is_contigous", True)), bool(getattr(o, "_safe_mode", True)), share,
+                          extra_attrs(o, RAGGED_KNOWN)))
         except Exception:  # noqa: BLE001  refactored / unexpected hidden state: coarser exploration, same verdicts
             parts.append(("fallback", x, tuple(objs[y] is o for y in live)))
     return hash((tuple(parts), repr(snap.v), tuple(id(snap.v[x]) == id(snap.v[y]) for x in live for y in live)))
